@@ -265,9 +265,11 @@ def run_history(case, D, node, Pp, env, res, mech, info):
         res["viol"].append(viol("exception", "set_volume on a part of %s raised %r" % (info["desc"], e), exc=type(e).__name__, site=exc_site(e), **mech))
         return
     res["counters"]["history_steps"] = res["counters"].get("history_steps", 0) + 1
-    check_volume(D, exp, Pp, k, True, res, dict(mech, target="after_set_volume_on_part"), "%s after set_volume(%.3g) on operand %s" % (info["desc"], uv, part))
+    # a difference of float32 volumes loses eps * (|a| + |b|) / |a - b| relative accuracy
+    rt = 1e-5 + 8 * 6e-8 * float(((np.abs(ma) + np.abs(mb)) / np.abs(exp)).max())
+    check_volume(D, exp, Pp, k, True, res, dict(mech, target="after_set_volume_on_part"), "%s after set_volume(%.3g) on operand %s" % (info["desc"], uv, part), rtol=rt)
     T = tp.domains.Translate(D, [0.5] * node.dim())
-    check_volume(T, exp, Pp, k, True, res, dict(mech, target="translate_after_set_volume_on_part"), "Translate(%s) after set_volume on operand %s" % (info["desc"], part))
+    check_volume(T, exp, Pp, k, True, res, dict(mech, target="translate_after_set_volume_on_part"), "Translate(%s) after set_volume on operand %s" % (info["desc"], part), rtol=rt)
     if k <= 1 and spec["op"] == "product":
         d = 40.0 / float(exp[0])
         try:
@@ -297,7 +299,11 @@ def run_case(case):
     spec = case["spec"]
     m = node.measure(env, kk)
     if wk in ("prim", "flagged", "product", "moved") and m is not None:
-        check_volume(D, m, Pp, k, bool(node.free()), res, dict(mech, target="interior"), info["desc"])
+        rt0 = 1e-5
+        if isinstance(node, geo.Bool) and node.op == "cut":
+            ma_, mb_ = node.a.measure(env, kk), node.b.measure(env, kk)
+            rt0 += 8 * 6e-8 * float(((np.abs(ma_) + np.abs(mb_)) / np.abs(m)).max())
+        check_volume(D, m, Pp, k, bool(node.free()), res, dict(mech, target="interior"), info["desc"], rtol=rt0)
     if wk == "sliver":
         # float32 evaluation of the determinant loses eps * |d1||d2| / area relative accuracy; anything beyond that is wrong
         V = node.verts(env, kk)
